@@ -171,8 +171,8 @@ def auto_discharge(body, kind, bb, t, prog):
     return False, None
 
 
-def run(ctx):
-    for cfg in CONFIGS:
+def run(ctx, configs=None):
+    for cfg in (configs or CONFIGS):
         prog = ctx.prog(cfg)
         roles, eff = effects.build(prog)
         fns = client_fns(prog, roles)
